@@ -585,3 +585,39 @@ Proof.
   intros c tgt tid s H. unfold builder_accepts_src in H. apply andb_prop in H. destruct H as [_ H].
   unfold source_family_ok in H. cbn [start_tracer_cfg target_addr] in H. apply Bool.eqb_prop in H. exact H.
 Qed.
+
+(* ---------------------------------------------------------------------------------------------- *)
+(* WHICH FILE is layered under the command line (TrippyConfig::from, model Tui/FileChoice.v): the file named with
+   -c / --config-file whenever one is named, whatever lies in the default locations; otherwise the first default
+   location, in the documented order, that holds a file; otherwise the built-in defaults.  Tied to the code by the c16loc
+   lines (real files in all 2^8 combinations of the eight default locations, with and without a named file). *)
+From TV Require Import Tui.FileChoice Proofs.FileChoiceProofs.
+
+Theorem c16_named_file_wins : forall (A : Type) (dflt f : A) locations, choose_file dflt (Some f) locations = f.
+Proof. exact @named_file_wins. Qed.
+
+Theorem c16_first_default_location : forall (A : Type) (dflt f : A) pre post,
+  Forall (fun l => l = None) pre -> choose_file dflt None (pre ++ Some f :: post) = f.
+Proof. exact @unnamed_takes_first_location. Qed.
+
+Theorem c16_no_file_is_default : forall (A : Type) (dflt : A) locations,
+  Forall (fun l => l = None) locations -> choose_file dflt None locations = dflt.
+Proof. exact @nothing_found_is_default. Qed.
+
+(* the source index the correspondence prints is that choice *)
+Theorem c16_chosen_source_index : forall locations,
+  chosen_source true locations = 0%nat /\
+  let k := first_present_index locations 0 in
+  chosen_source false locations = S k /\ (k <= length locations)%nat /\
+  (forall j, (j < k)%nat -> nth j locations false = false) /\
+  ((k < length locations)%nat -> nth k locations false = true).
+Proof.
+  intros locations. split; [reflexivity|]. cbv zeta. split; [reflexivity|].
+  destruct (first_present_index_spec locations 0) as (R & B & T). cbv zeta in R, B, T.
+  rewrite Nat.sub_0_r in B, T. cbn [plus] in R, T. split; [apply R|]. split; [exact B|exact T].
+Qed.
+
+Example c16_example_file_choice :
+  choose_file 64 (Some 30) [None; Some 41; Some 42] = 30 /\ choose_file 64 None [None; Some 41; Some 42] = 41 /\
+  choose_file 64 None [None; None] = 64.
+Proof. repeat split. Qed.
